@@ -196,15 +196,23 @@ func C12(tier rt.Tier) int {
 	// (A) small contents: every subset of the six keys as request, every follow-up sequence
 	for _, c := range cs {
 		for _, mode := range modes {
-			for mask := 0; mask < 1<<len(Keys); mask++ {
+			// the six alphabet keys plus two never-stored keys: x2 falls into an empty slot of the root
+			// branch, x0 shares 63 nibbles with k0/k1 (an empty slot of the deepest branch)
+			reqKeys := append(append([][]byte{}, Keys...), extraKeys[0], extraKeys[7])
+			for mask := 0; mask < 1<<len(reqKeys); mask++ {
 				var req [][]byte
 				var kis []int
 				name := "{"
-				for i := range Keys {
+				for i := range reqKeys {
 					if mask&(1<<i) != 0 {
-						req = append(req, Keys[i])
-						kis = append(kis, i)
-						name += fmt.Sprintf("k%d ", i)
+						req = append(req, reqKeys[i])
+						if i < len(Keys) {
+							kis = append(kis, i)
+							name += fmt.Sprintf("k%d ", i)
+						} else {
+							kis = append(kis, -1)
+							name += fmt.Sprintf("x%x ", reqKeys[i][:1])
+						}
 					}
 				}
 				name += "}"
@@ -268,7 +276,7 @@ func C12(tier rt.Tier) int {
 	rep.Set("traces_validated_against_impl", int(run.seqs))
 	rep.Set("evaluations", int(run.seqs))
 	rep.Set("distinct_nontrivial", nd)
-	rep.Set("rule", fmt.Sprintf("(A) every content of <= %d keys (plus 3-key shapes) in storage modes %v x EVERY subset of the six alphabet keys as request (present and absent mixed) x every follow-up sequence of <= %d updates/deletes restricted to the requested keys (single follow-ups for requests of more than 3 keys in quick); (B) shapes with root = shared-prefix node / single entry / branch / empty x request sizes 0,1,2,10,11,12,14,16 padded with never-stored keys (both sides of the >10 parallel-collection threshold) x every single follow-up. Oracle: export deserialises; partial root/weight == source root/weight (== model) before and after every mirrored operation; an operation that succeeds on the source must succeed on the partial trie; 'states' = (content, mode, request) cases, 'transitions' = mirrored sequences, distinct_nontrivial = distinct exports", maxKeys, modes, depth))
+	rep.Set("rule", fmt.Sprintf("(A) every content of <= %d keys (plus 3-key shapes) in storage modes %v x EVERY subset of the six alphabet keys plus two never-stored keys (one under an empty root slot, one under an empty slot of the deepest branch) as request x every follow-up sequence of <= %d updates/deletes restricted to the requested keys (single follow-ups for requests of more than 3 keys in quick); (B) shapes with root = shared-prefix node / single entry / branch / empty x request sizes 0,1,2,10,11,12,14,16 padded with never-stored keys (both sides of the >10 parallel-collection threshold) x every single follow-up. Oracle: export deserialises; partial root/weight == source root/weight (== model) before and after every mirrored operation; an operation that succeeds on the source must succeed on the partial trie; 'states' = (content, mode, request) cases, 'transitions' = mirrored sequences, distinct_nontrivial = distinct exports", maxKeys, modes, depth))
 	rep.Sample(map[string]any{"content": "k0=a k1=b", "mode": 1, "requested": "{k0 k5}", "follow": []string{"update(k5,a)", "delete(k0)"}})
 	return rep.Finish()
 }
